@@ -112,7 +112,8 @@ PROPS["C20"] = dict(
 
 PROPS_EXTRA = {"C06": ["Props.EffectFacts", "Props.CodecFacts", "Props.SlicesGen"], "C17": ["Props.EffectFacts"],
                "C04": ["Props.C04Conc", "Props.SlicesGen"],
-               "C02": ["Props.C13Facts", "Props.SlicesGen"], "C15": ["Props.C13Facts"], "C19": ["Props.C19Gen"], "C03": ["Props.C19Gen"],
+               "C02": ["Props.C13Facts", "Props.SlicesGen"], "C15": ["Props.C13Facts", "Props.SlicesGen"], "C19": ["Props.C19Gen"], "C03": ["Props.C19Gen", "Props.SlicesGen"],
+               "C01": ["Props.SlicesGen"], "C05": ["Props.SlicesGen"],
                "C07": ["Props.CodecFacts"], "C08": ["Props.CodecFacts", "Props.SlicesGen"], "C12": ["Props.CodecFacts"],
                "C18": ["Props.CodecFacts", "Props.SlicesGen"], "C09": ["Props.SlicesGen"], "C10": ["Props.SlicesGen"],
                "C14": ["Props.SlicesGen"]}
